@@ -1,0 +1,9 @@
+//go:build verif
+
+package headers
+
+// VerifKeyValParse exposes keyValParseOrdered (keys in order of first appearance and the
+// key/value map) to the verification harness in /verif.
+func VerifKeyValParse(str string, separator byte) ([]string, map[string]string, error) {
+	return keyValParseOrdered(str, separator)
+}
